@@ -906,19 +906,6 @@ func UpdateCounters(state *tree.PageState, style pr.ElementStyle) {
 		counterValues[nv.String] = append(slice, nv.Int)
 	}
 
-	for _, nv := range style.GetCounterSet().Values {
-		values := counterValues[nv.String]
-		if len(values) == 0 {
-			if siblingScopes.Has(nv.String) {
-				logger.WarningLogger.Println("ci.String shoud'nt be in siblingScopes")
-			}
-			siblingScopes.Add(nv.String)
-			values = append(values, 0)
-		}
-		values[len(values)-1] = nv.Int
-		counterValues[nv.String] = values
-	}
-
 	counterIncrement := style.GetCounterIncrement()
 	if counterIncrement.String == "auto" {
 		// "auto" is the initial value but is not valid in stylesheet:
@@ -942,6 +929,21 @@ func UpdateCounters(state *tree.PageState, style pr.ElementStyle) {
 		}
 		values[len(values)-1] += ci.Int
 		counterValues[ci.String] = values
+	}
+
+	// counter-set is applied after counter-increment
+	// https://drafts.csswg.org/css-lists-3/#creating-counters
+	for _, nv := range style.GetCounterSet().Values {
+		values := counterValues[nv.String]
+		if len(values) == 0 {
+			if siblingScopes.Has(nv.String) {
+				logger.WarningLogger.Println("ci.String shoud'nt be in siblingScopes")
+			}
+			siblingScopes.Add(nv.String)
+			values = append(values, 0)
+		}
+		values[len(values)-1] = nv.Int
+		counterValues[nv.String] = values
 	}
 }
 
